@@ -1,13 +1,180 @@
 (* C20: the shipped test assertions accept exactly equal collections.
    This file holds ONLY the property theorems (each closed by `exact`) and their
-   non-vacuity examples. *)
+   non-vacuity examples. `= true` means the assertion returns, `= false` that it panics. *)
 From Coq Require Import List ZArith Bool Permutation.
 From IB Require Import Testing.Assertions Proofs.AssertionsProofs.
 Import ListNotations.
 
+(* ---------- ordered ---------- *)
 Theorem c20_ordered_iff :
   forall (A : Type) (eqb : A -> A -> bool),
     (forall x y, reflect (x = y) (eqb x y)) ->
     forall actual expected : list A,
       assert_collections_equal eqb actual expected = true <-> actual = expected.
 Proof. exact ordered_iff. Qed.
+
+Example c20_ordered_iff_ex :
+  assert_collections_equal Z.eqb [1; 2; 2]%Z [1; 2; 2]%Z = true /\
+  assert_collections_equal Z.eqb [1; 2; 2]%Z [2; 1; 2]%Z = false.
+Proof. split; vm_compute; reflexivity. Qed.
+
+(* ---------- unordered: multiset equality ---------- *)
+Theorem c20_unordered_iff :
+  forall (A : Type) (eqb : A -> A -> bool),
+    (forall x y, reflect (x = y) (eqb x y)) ->
+    forall actual expected : list A,
+      assert_collections_unordered_equal eqb actual expected = true <->
+      Permutation actual expected.
+Proof. exact unordered_iff. Qed.
+
+Example c20_unordered_iff_ex :
+  assert_collections_unordered_equal Z.eqb [3; 1; 2; 1]%Z [1; 1; 2; 3]%Z = true /\
+  Permutation [3; 1; 2; 1]%Z [1; 1; 2; 3]%Z.
+Proof.
+  assert (H : assert_collections_unordered_equal Z.eqb [3; 1; 2; 1]%Z [1; 1; 2; 3]%Z = true)
+    by (vm_compute; reflexivity).
+  split; [exact H|]. exact (proj1 (c20_unordered_iff Z Z.eqb Z.eqb_spec _ _) H).
+Qed.
+
+(* the assertion never accepts collections that differ in how often an element occurs *)
+Theorem c20_never_accepts_multiplicity_change :
+  forall (A : Type) (eqb : A -> A -> bool),
+    (forall x y, reflect (x = y) (eqb x y)) ->
+    forall (dec : forall x y : A, {x = y} + {x <> y}) (actual expected : list A) (x : A),
+      count_occ dec actual x <> count_occ dec expected x ->
+      assert_collections_unordered_equal eqb actual expected = false.
+Proof. exact unordered_multiplicity. Qed.
+
+(* the old defect witness: same length, same set, different multiplicities *)
+Example c20_never_accepts_multiplicity_change_ex :
+  count_occ Z.eq_dec [1; 1; 2]%Z 1%Z <> count_occ Z.eq_dec [1; 2; 2]%Z 1%Z /\
+  assert_collections_unordered_equal Z.eqb [1; 1; 2]%Z [1; 2; 2]%Z = false.
+Proof.
+  assert (H : count_occ Z.eq_dec [1; 1; 2]%Z 1%Z <> count_occ Z.eq_dec [1; 2; 2]%Z 1%Z)
+    by (vm_compute; discriminate).
+  split; [exact H|].
+  exact (c20_never_accepts_multiplicity_change Z Z.eqb Z.eqb_spec Z.eq_dec _ _ _ H).
+Qed.
+
+(* ---------- key-sorted (key, value) rows: multiset equality, also with repeated keys ---------- *)
+Theorem c20_kv_iff :
+  forall (V : Type) (veqb : V -> V -> bool),
+    (forall x y, reflect (x = y) (veqb x y)) ->
+    forall actual expected : list (Z * V),
+      assert_kv_collections_equal veqb actual expected = true <-> Permutation actual expected.
+Proof. exact kv_iff. Qed.
+
+Example c20_kv_iff_ex :
+  assert_kv_collections_equal Z.eqb [(1, 10); (1, 20); (0, 5)]%Z [(0, 5); (1, 20); (1, 10)]%Z = true /\
+  Permutation [(1, 10); (1, 20); (0, 5)]%Z [(0, 5); (1, 20); (1, 10)]%Z /\
+  assert_kv_collections_equal Z.eqb [(1, 10); (1, 10); (0, 5)]%Z [(0, 5); (1, 20); (1, 10)]%Z = false.
+Proof.
+  assert (H : assert_kv_collections_equal Z.eqb
+                [(1, 10); (1, 20); (0, 5)]%Z [(0, 5); (1, 20); (1, 10)]%Z = true)
+    by (vm_compute; reflexivity).
+  split; [exact H|]. split; [|vm_compute; reflexivity].
+  exact (proj1 (c20_kv_iff Z Z.eqb Z.eqb_spec _ _) H).
+Qed.
+
+(* ---------- grouped data (key, list of values) ---------- *)
+(* acceptance always means: the groups of `expected` can be rearranged so that, position by
+   position, the keys are equal and the value lists are equal as multisets *)
+Theorem c20_grouped_sound :
+  forall (V : Type) (veqb : V -> V -> bool),
+    (forall x y, reflect (x = y) (veqb x y)) ->
+    forall actual expected : list (Z * list V),
+      assert_grouped_kv_equal veqb actual expected = true ->
+      exists expected',
+        Permutation expected expected' /\
+        Forall2 (fun x y => fst x = fst y /\ Permutation (snd x) (snd y)) actual expected'.
+Proof. exact grouped_sound. Qed.
+
+Example c20_grouped_sound_ex :
+  assert_grouped_kv_equal Z.eqb [(2, [3]); (1, [1; 2; 1])]%Z [(1, [1; 1; 2]); (2, [3])]%Z = true /\
+  assert_grouped_kv_equal Z.eqb [(2, [3]); (1, [1; 2; 1])]%Z [(1, [1; 2; 2]); (2, [3])]%Z = false.
+Proof. split; vm_compute; reflexivity. Qed.
+
+(* grouped data proper (each key occurs once on either side): accepted iff that pairing exists *)
+Theorem c20_grouped_iff_nodup :
+  forall (V : Type) (veqb : V -> V -> bool),
+    (forall x y, reflect (x = y) (veqb x y)) ->
+    forall actual expected : list (Z * list V),
+      NoDup (map fst actual) -> NoDup (map fst expected) ->
+      (assert_grouped_kv_equal veqb actual expected = true <->
+       exists expected',
+         Permutation expected expected' /\
+         Forall2 (fun x y => fst x = fst y /\ Permutation (snd x) (snd y)) actual expected').
+Proof. exact grouped_iff_nodup. Qed.
+
+Example c20_grouped_iff_nodup_ex :
+  NoDup (map fst [(2, [3]); (1, [1; 2; 1])]%Z) /\ NoDup (map fst [(1, [1; 1; 2]); (2, [3])]%Z) /\
+  exists expected',
+    Permutation [(1, [1; 1; 2]); (2, [3])]%Z expected' /\
+    Forall2 (fun x y : Z * list Z => fst x = fst y /\ Permutation (snd x) (snd y))
+            [(2, [3]); (1, [1; 2; 1])]%Z expected'.
+Proof.
+  assert (Ha : NoDup (map fst [(2, [3]); (1, [1; 2; 1])]%Z)).
+  { repeat constructor; cbn; intuition discriminate. }
+  assert (He : NoDup (map fst [(1, [1; 1; 2]); (2, [3])]%Z)).
+  { repeat constructor; cbn; intuition discriminate. }
+  split; [exact Ha|]. split; [exact He|].
+  apply (proj1 (c20_grouped_iff_nodup Z Z.eqb Z.eqb_spec _ _ Ha He)). vm_compute. reflexivity.
+Qed.
+
+(* the same, in the words of the property: the same keys and, per key, the same multiset of values *)
+Theorem c20_grouped_iff_same_keys_values :
+  forall (V : Type) (veqb : V -> V -> bool),
+    (forall x y, reflect (x = y) (veqb x y)) ->
+    forall actual expected : list (Z * list V),
+      NoDup (map fst actual) -> NoDup (map fst expected) ->
+      (assert_grouped_kv_equal veqb actual expected = true <->
+       (forall k, In k (map fst actual) <-> In k (map fst expected)) /\
+       (forall k va ve, In (k, va) actual -> In (k, ve) expected -> Permutation va ve)).
+Proof. exact grouped_iff_same_keys_values. Qed.
+
+Example c20_grouped_iff_same_keys_values_ex :
+  (forall k, In k (map fst [(2, [3]); (1, [1; 2; 1])]%Z) <-> In k (map fst [(1, [1; 1; 2]); (2, [3])]%Z)) /\
+  (forall k va ve, In (k, va) [(2, [3]); (1, [1; 2; 1])]%Z -> In (k, ve) [(1, [1; 1; 2]); (2, [3])]%Z ->
+                   Permutation va ve).
+Proof.
+  assert (Ha : NoDup (map fst [(2, [3]); (1, [1; 2; 1])]%Z)).
+  { repeat constructor; cbn; intuition discriminate. }
+  assert (He : NoDup (map fst [(1, [1; 1; 2]); (2, [3])]%Z)).
+  { repeat constructor; cbn; intuition discriminate. }
+  apply (proj1 (c20_grouped_iff_same_keys_values Z Z.eqb Z.eqb_spec _ _ Ha He)).
+  vm_compute. reflexivity.
+Qed.
+
+(* a value occurring a different number of times under the same key is never accepted *)
+Theorem c20_grouped_never_accepts_multiplicity_change :
+  forall (V : Type) (veqb : V -> V -> bool),
+    (forall x y, reflect (x = y) (veqb x y)) ->
+    forall (dec : forall x y : V, {x = y} + {x <> y})
+           (actual expected : list (Z * list V)) (k : Z) (va ve : list V) (x : V),
+      NoDup (map fst actual) ->
+      In (k, va) actual -> In (k, ve) expected ->
+      count_occ dec va x <> count_occ dec ve x ->
+      assert_grouped_kv_equal veqb actual expected = false.
+Proof. exact grouped_multiplicity. Qed.
+
+(* the old defect witness [(k,[1;1])] vs [(k,[1])], and one of equal length *)
+Example c20_grouped_never_accepts_multiplicity_change_ex :
+  assert_grouped_kv_equal Z.eqb [(7, [1; 1])]%Z [(7, [1])]%Z = false /\
+  assert_grouped_kv_equal Z.eqb [(7, [1; 1; 2])]%Z [(7, [1; 2; 2])]%Z = false.
+Proof.
+  split.
+  - apply (c20_grouped_never_accepts_multiplicity_change Z Z.eqb Z.eqb_spec Z.eq_dec
+             [(7, [1; 1])]%Z [(7, [1])]%Z 7%Z [1; 1]%Z [1]%Z 1%Z).
+    + repeat constructor. cbn. intuition.
+    + left. reflexivity.
+    + left. reflexivity.
+    + vm_compute. discriminate.
+  - vm_compute. reflexivity.
+Qed.
+
+(* limit of the grouped assertion, outside grouped data proper: when a key repeats, the stable
+   sort keeps the input order of its groups and they are compared position by position, so a
+   reordering of equal-key groups is rejected although the pairing of c20_grouped_sound exists *)
+Example c20_grouped_repeated_key_rejected :
+  assert_grouped_kv_equal Z.eqb [(1, [1]); (1, [2])]%Z [(1, [2]); (1, [1])]%Z = false.
+Proof. vm_compute. reflexivity. Qed.
